@@ -226,8 +226,22 @@ def build_tree(T):
   if k == 'mf':
     return dk.MFDeviceSet(lg.build(T['leaf']), list(T['flows']))
   if k == 'tworatio':
-    return dk.TwoRatioMFDeviceSet(lg.build(T['leaf']), list(T['flows']), [float(T['ratios'][0]), float(T['ratios'][1])],
-                                  'eq' if T['eq'] else 'ineq')
+    # the ratios as a list or as a float ndarray (decided by the content), and for some trees a decoy adaptor built first from the
+    # same argument objects: constructors and constraint builders must not modify what the caller passed
+    h = int(__import__('core').case_hash({'r': [str(x) for x in T['ratios']], 'f': list(T['flows']), 'n': T['leaf']['n']}), 16)
+    ratios = [float(T['ratios'][0]), float(T['ratios'][1])]
+    if h % 2:
+      ratios = np.array(ratios, dtype=float)
+    inner, flows, ct = lg.build(T['leaf']), list(T['flows']), 'eq' if T['eq'] else 'ineq'
+    if h % 3 == 0:
+      decoy = dk.TwoRatioMFDeviceSet(inner, flows, ratios, ct)
+      for c in decoy.constraints:
+        if 'jac' in c:
+          try:
+            c['jac'](np.zeros(len(flows) * len(inner)))
+          except Exception:
+            pass
+    return dk.TwoRatioMFDeviceSet(inner, flows, ratios, ct)
   kids = [build_tree(c) for c in T['kids']]
   if k == 'set':
     return dk.DeviceSet(T['id'], kids, py_sbounds(T['sbounds']))
